@@ -27,10 +27,11 @@ from .. import c19_corpus, c19_faults, c19_snap, core, world
 PROP = "C19"
 
 # (scene, uid order, file version, open mode)
-QUICK = [(s, "asc", None, "r") for s in ("basic", "tree", "classes", "drillholes", "surveys", "kinds")]
+QUICK = [("basic", "asc", None, "r"), ("tree", "desc", None, "r"), ("classes", "asc", None, "r"), ("drillholes", "asc", None, "r"),
+         ("surveys", "desc", None, "r"), ("kinds", "asc", None, "r")]
 THOROUGH = (
     [(s, o, None, m) for s in c19_corpus.SCENES for o in ("asc", "desc") for m in ("r", "r+")]
-    + [("drillholes", "asc", 2.0, "r"), ("classes", "asc", 1.0, "r"), ("basic", "asc", 1.0, "r")]
+    + [("drillholes", "asc", 2.0, "r"), ("drillholes", "asc", 1.0, "r"), ("classes", "asc", 1.0, "r"), ("basic", "asc", 1.0, "r")]
 )
 
 _CACHE: dict = {}
@@ -92,11 +93,12 @@ def judge(ft, s0, s1, error):
         out.append(
             (
                 "others-returned",
-                item,
+                f"{item}:{'+'.join(sorted({e0[u]['kind'] for u in missing}))}",
                 {"left-out": [f"{e0[u]['cls']}:{e0[u].get('name')}" for u in missing], "fault": _short(ft)},
             )
         )
     changed = []
+    what = set()  # which fields of which kind of record are altered: part of the witness
     for u, r0 in e0.items():
         if u in exempt or u not in e1:
             continue
@@ -131,11 +133,13 @@ def judge(ft, s0, s1, error):
                     diffs.append(f"property groups: {len(q0)} -> {len(q1)} of the undescribed ones")
         if diffs:
             changed.append({"entity": f"{r0['cls']}:{r0.get('name')}", "diff": diffs[:6]})
+            what |= {f"{r0['kind']}.{d.split(':')[0].replace(' ', '-')}" for d in diffs}
     for t, r0 in s0["types"].items():
         if t in ex_t or t not in s1["types"]:
             continue
         if r0 != s1["types"][t]:
             changed.append({"type": f"{r0['cls']}:{r0.get('name')}", "diff": _rdiff(r0, s1["types"][t])})
+            what.add("type")
     for p, r0 in s0["pgs"].items():
         if p in ex_p or r0["owner"] in exempt:
             continue
@@ -143,6 +147,7 @@ def judge(ft, s0, s1, error):
         if r1 is None:
             if r0["owner"] in e1 and not (lenient and _is_err(e1[r0["owner"]].get("pg_ids"))):
                 changed.append({"pg": r0["name"], "diff": ["left out although its owner is returned"]})
+                what.add("pg.left-out")
             continue
         a, b = dict(r0), dict(r1)
         for r in (a, b):
@@ -150,8 +155,9 @@ def judge(ft, s0, s1, error):
                 r["properties"] = [x for x in r["properties"] if x not in exempt]
         if a != b:
             changed.append({"pg": r0["name"], "diff": _rdiff(a, b)})
+            what.add("pg")
     if changed:
-        out.append(("others-unchanged", item, {"altered": changed[:5], "n_altered": len(changed), "fault": _short(ft)}))
+        out.append(("others-unchanged", f"{item}:{'+'.join(sorted(what))}", {"altered": changed[:5], "n_altered": len(changed), "fault": _short(ft)}))
     return out
 
 
@@ -273,8 +279,11 @@ def run(ctx):
         if len(ctx.samples) < 6 and (len(ctx.samples) < 3 or res["error"] is not None):
             ctx.sample({"case": case, "class": res["cls"], "item": res["item"], "outcome": res["outcome"][2], "error": res["error"],
                         "exempt_entities": res["n_exempt"], "entities_in_file": res["n_entities"]})
-    if len(nontrivial) != len(cases):
-        raise core.HarnessError(f"{len(cases) - len(nontrivial)} faults did not remove anything or are duplicates")
+    trivial = [c for c, r in zip(cases, results) if not r["removed"]]
+    if trivial:
+        raise core.HarnessError(f"{len(trivial)} faults did not remove anything, e.g. {trivial[0]}")
+    if len(nontrivial) != sum(per_file.values()):
+        raise core.HarnessError(f"{sum(per_file.values())} (file, fault) pairs enumerated but {len(nontrivial)} distinct ones executed")
     # determinism self-test: the same pair twice, in this process
     for case in cases[:: max(1, len(cases) // 5)][:5]:
         a, b2 = execute(case), execute(case)
@@ -311,6 +320,11 @@ def run(ctx):
         "child (with descendants) for an entry or a non-empty child container; for non-optional items descendants of the described "
         "entities are exempt as well; child lists and member lists are compared modulo exempt records; a changed parent is accepted when "
         "both parents are the workspace root",
+        "project attribute Version ('version of specification used by this file') is taken to describe every node of the file: its removal "
+        "only has to open or raise (observed: a v1.0 file without it is read with the v2.1 layout and drillhole data come back empty)",
+        "the reader is lazy: for non-optional items an exception raised by a getter of an entity (or while listing the members of a hole) "
+        "counts as 'raises an error' for that field / those members; for optional items it counts as altered content",
+        "identifiers invented by the reader for nodes whose ID is missing are drawn from the half of the uid space not used by the file",
         "attributes of concatenated (drillhole-group) members live inside JSON text, not in HDF5 attributes: removing a key of that text is "
         "outside 'one attribute or one link' and is not enumerated",
         "the link from the file root to the project group is not removed (there would be no file content left to describe)",
